@@ -7,28 +7,52 @@ import numpy as np
 import pandas as pd
 
 from harness import e2e
-from harness.core import Failure, Family, Support
+from harness.core import Failure, Family, Support, drive, first_diff
 from harness.props import c12
+from harness.render import Names, rgraph, rkey
 
 LEAN_MODULES = ["DxModel.Props.C10"]
 GENERATED = []
 TRUSTED = [
     "the selection thresholds themselves (n_low < log2(n_high)*bias, npartitions > max_branch, split_out tuning) are deliberately "
-    "not modelled: the theorems quantify over both outcomes of every choice, so the float arithmetic cannot affect the result",
-    "reduction triples satisfy the homomorphism law assumed by C10_split_every_value (validated per reduction in C02's helper family)",
+    "not modelled: the theorems quantify over both outcomes of every choice, so the float arithmetic cannot affect the result "
+    "(family plan_choice evaluates the float test in the harness and hands its outcome to the decision model)",
+    "reduction triples satisfy the homomorphism law assumed by C10_split_every_value (validated per reduction in C02's helper family); "
+    "C10_split_out is stated on the partial results (chunks): that aggregating the chunk rows of a group equals aggregating its original rows is that same law",
+    "merge_chunk on one pair of frames is the abstract join `joinSpec` (inner/left/right/outer/leftsemi on key equality, null-free keys); "
+    "pandas' own merge is not modelled",
+    "the hash function: RearrangeByColumn and _split_partition_like_shuffle are `h(key) % m` for ONE function h (hypothesis of "
+    "C10_join_broadcast_spec; validated on real frames of mixed key dtypes by family bucket_function_hypothesis)",
+    "the per-partition sort kernel (pandas sort_values / sort_index) returns a permutation in the requested order (hypotheses hperm/hsorted of the C10_sort_* theorems)",
+    "numpy searchsorted(side='right') on a sorted divisions vector = number of entries <= key (helper_spec[set_partitions_pre] compares the whole helper)",
+    "harness/render.py + Driver/Knobs.lean canonical text of the BroadcastJoin graph",
 ]
 PARTIAL = [
-    "join-strategy and sort-partition-count corollaries are covered by the knob-grid search only (the Lean corollaries cover "
-    "split_every and the shuffle method / max_branch choice)",
+    "HashJoinP2P (needs `distributed`, not installed) is covered only as 'a hash join into n partitions'; its own layer is not transliterated",
+    "joins on the index with known divisions on both sides (the fully-indexed Repartition path of Merge._lower) and merge_asof are not modelled; "
+    "the join theorems are about keys without nulls",
+    "sort theorems: integer keys without nulls, one sort key (the first `by` column decides the partition; further columns only matter inside the "
+    "per-partition sort); the quantile SAMPLING is not modelled — its output is checked against the theorem's hypothesis (T3) on every run; "
+    "user-supplied divisions that start above the smallest key are outside the hypothesis (C10_sort_below_first_division_counterexample shows what the code does then)",
+    "split_out: `_adjust_split_out_for_group_keys` and the Repartition to split_out after the aggregation are not modelled (the theorem holds for every partition count; "
+    "Repartition is C13's subject)",
+    "fuse on/off is C14's theorem; C10 only samples it in the knob grid",
 ]
 EXPLANATION = (
-    "Theorems: every TreeReduce depth (split_every False or >= 2) aggregates the same chunk values; the three shuffle "
-    "implementations and every staged configuration satisfy one specification. Tie: the exact graph-equality families of the "
-    "TreeReduce and shuffle layers. Support: the knob grid split_every x split_out x shuffle method x max_branch x broadcast x "
-    "npartitions hints x fuse for reductions, groupby, merges, sorts, unique/drop_duplicates/value_counts with partition counts "
-    "on both sides of every selection threshold; results equal the default configuration and pandas."
+    "Theorems (Props/C10.lean): every TreeReduce depth aggregates the same chunk values; the three shuffle implementations and every staged "
+    "configuration satisfy one specification; JOIN STRATEGY: the hash plan (any n, any how) and the BroadcastJoin plan (transliterated _layer graph; any "
+    "partitioning and partition counts of both sides, with/without the npartitions-hint Repartition) both equal the join of the concatenated inputs for "
+    "exactly the how x broadcast-side pairs in `allowed`, every other pair is refuted by a proven witness, and the decision code of Merge._lower "
+    "(single-partition broadcast, is_broadcast_join for BOTH outcomes of the float threshold, broadcast=True/False/float, npartitions hint, method) is proven to pick "
+    "only legal plans; SORT: partition assignment by set_partitions_pre (searchsorted + clamps) followed by a per-partition sort returns, for ANY divisions vector "
+    "(any npartitions / upsample), a permutation of the input, and for every divisions vector whose first entry is not above the data the same sorted key sequence; "
+    "SPLIT_OUT: hashing group keys into any n >= 1 partitions and aggregating group-wise per partition gives the groups of the tree reduction (also through the "
+    "SimpleShuffle graph). Tie: exact graph equality of BroadcastJoin._layer, TreeReduce and shuffle layers; the plan read off the real Merge._lower over the whole "
+    "knob grid = the decision model (and legal); set_partitions_pre helper conformance; the real divisions satisfy the sort theorem's hypothesis and the real "
+    "partition layout equals the model pipeline's; bucket numbers of the two sides of a BroadcastJoin are one function of the key; ShuffleReduce's partition count. "
+    "Support: the knob grid split_every x split_out x shuffle method x max_branch x broadcast x npartitions hints x fuse for reductions, groupby, merges (incl. "
+    "leftsemi), sorts (asc/desc), unique/drop_duplicates/value_counts with partition counts on both sides of every selection threshold; results equal pandas."
 )
-
 
 def _frames():
     n = 40
@@ -88,10 +112,20 @@ def _knob_queries():
                                                    **({"shuffle_method": k["sm"]} if k["sm"] else {}),
                                                    **({"npartitions": k["np"]} if k["np"] else {})),
                   {"bc": [None, True, False, 0.5], "sm": sm, "np": [None, 2, 5]}, True))
+    # leftsemi: every left row with a partner exactly once (D87: never broadcast the left side)
+    q.append(("merge_leftsemi", lambda L, R: L[L.k.isin(R.k)],
+              lambda L, R, k: L.merge(R[["k"]], on="k", how="leftsemi", broadcast=k["bc"],
+                                      **({"shuffle_method": k["sm"]} if k["sm"] else {}),
+                                      **({"npartitions": k["np"]} if k["np"] else {})),
+              {"bc": [None, True, False, 0.5], "sm": ["tasks", "disk"], "np": [None, 2]}, True))
     q.append(("sort_values", lambda L, R: L.sort_values(["w", "v"]),
               lambda L, R, k: L.sort_values(["w", "v"], **({"npartitions": k["np"]} if k["np"] else {}),
                                             **({"shuffle_method": k["sm"]} if k["sm"] else {})),
               {"np": [None, 1, 2, 7], "sm": sm}, False))
+    q.append(("sort_values_desc", lambda L, R: L.sort_values(["w", "v"], ascending=False),
+              lambda L, R, k: L.sort_values(["w", "v"], ascending=False, **({"npartitions": k["np"]} if k["np"] else {}),
+                                            **({"upsample": k["up"]} if k["up"] else {}), shuffle_method="tasks"),
+              {"np": [None, 2, 7], "up": [None, 3.0]}, False))
     q.append(("set_index", lambda L, R: L.set_index("v"),
               lambda L, R, k: L.set_index("v", **({"npartitions": k["np"]} if k["np"] else {}),
                                           **({"shuffle_method": k["sm"]} if k["sm"] else {}), **({"upsample": k["up"]} if k["up"] else {})),
@@ -168,6 +202,16 @@ def run_presorted_case(case):
                 if len(p) and (p.index.min() < divs[i] or p.index.max() > divs[i + 1] or (p.index.max() == divs[i + 1] and i < len(parts) - 1)):
                     return f"partition {i} holds index [{p.index.min()}, {p.index.max()}] but divisions are {divs}"
         return None
+    if case["op"] == "sort_values_desc":
+        # staggered newest-first chunks: per-partition minima and maxima both decrease but neighbouring ranges may overlap
+        pdf = pd.DataFrame({"s": np.array([30, 25, 20, 25, 20, 15, 20, 15, 10], dtype="int64"), "y": np.arange(9, dtype="int64")})
+        df = e2e.frame_from_cuts(pdf, case["cuts"], known_divisions=False)
+        got = pd.concat(e2e.compute_partitions(df.sort_values("s", ascending=False, shuffle_method="tasks")))
+        if got.s.tolist() != sorted(pdf.s.tolist(), reverse=True):
+            return f"sort_values('s', ascending=False) not globally sorted (descending): {got.s.tolist()}"
+        if sorted(got.y.tolist()) != pdf.y.tolist():
+            return "sort_values(ascending=False) lost or duplicated rows"
+        return None
     q = df.sort_values(["s", "y"], shuffle_method="tasks")
     got = pd.concat(e2e.compute_partitions(q))
     keys = list(zip(got.s.tolist(), got.y.tolist()))
@@ -186,6 +230,12 @@ def _cases(ctx, broken):
             for kn in combos:
                 for fuse in (True, False):
                     cases.append({"query": name, "nl": nl, "nr": nr, "knobs": kn, "fuse": fuse})
+    # leftsemi with (far) fewer left than right partitions: the automatic broadcast threshold is met for (1, 8)
+    semi = []
+    for nl, nr in ((1, 8), (2, 4), (2, 8)):
+        for kn in _grid({"bc": [None, True, False], "sm": ["tasks"], "np": [None, 2]}):
+            semi.append({"query": "merge_leftsemi", "nl": nl, "nr": nr, "knobs": kn, "fuse": True})
+    cases += semi
     # mixed key dtype: categorical-of-int keys on both sides (broadcast vs hash join must agree)
     for bc in (None, True, False):
         for nl, nr in ((5, 2), (9, 1)):
@@ -194,19 +244,514 @@ def _cases(ctx, broken):
     presorted = [{"kind": "presorted", "op": op, "cuts": cuts, "query": "presorted", "knobs": {}}
                  for op in ("set_index", "sort_values") for cuts in e2e.all_cuts(8, kmax=4)
                  if ctx.rng.random() < (0.35 if ctx.quick else 1.0) or cuts == [0, 4, 8]]
+    presorted += [{"kind": "presorted", "op": "sort_values_desc", "cuts": cuts, "query": "presorted", "knobs": {}}
+                  for cuts in e2e.all_cuts(9, kmax=4) if ctx.rng.random() < (0.3 if ctx.quick else 1.0) or cuts == [0, 3, 6, 9]]
     ctx.rng.shuffle(cases)
     must = [c for c in cases if c.get("cat_keys")] + presorted
+    # D87 regression: leftsemi must never broadcast its left side (automatic pick at 1 vs 8 partitions, forced at 2 vs 4)
+    must += [c for c in semi if c["knobs"]["np"] is None and c["knobs"]["bc"] in (None, True) and (c["nl"], c["nr"]) in ((1, 8), (2, 4))]
     must += [c for c in cases if "skipna0" in c["query"] and c["nl"] == 9 and c["knobs"].get("se") in (2, 3) and c["fuse"]]
     must += [c for c in cases if c["query"] in ("merge_lr_right", "merge_rl_left", "merge_rl_right", "merge_lr_left") and c["knobs"].get("bc") is True
              and c["knobs"].get("sm") == "tasks" and (c["nl"], c["nr"]) in ((5, 2), (3, 9)) and c["fuse"]]
     # broadcast joins with an npartitions hint below the partition count of the large side (D81)
     must += [c for c in cases if c["query"] in ("merge_left", "merge_right", "merge_inner") and c["knobs"].get("bc") is True
              and c["knobs"].get("sm") == "tasks" and c["knobs"].get("np") == 2 and (c["nl"], c["nr"]) in ((9, 3), (3, 9)) and c["fuse"]]
+    # steer the search by what broke (families / theorems about joins, sorts, split_out)
+    txt = " ".join(str(b.get("family", "")) + " " + str(b.get("theorem", "")) + " " + str(b.get("module", "")) for b in (broken or []))
+    steer = []
+    if any(w in txt for w in ("Merge._lower", "BroadcastJoin", "bucket_function", "C10_join")):
+        steer += [c for c in cases if c["query"].startswith("merge")]
+    if any(w in txt for w in ("set_partitions_pre", "sort_divisions", "pipeline_layout", "presorted", "C10_sort")):
+        steer += [c for c in cases if c["query"].startswith(("sort_values", "set_index"))]
+    if any(w in txt for w in ("shuffle_npartitions", "C10_split_out")):
+        steer += [c for c in cases if c["query"] in ("gb_sum", "gb_agg2", "value_counts", "unique", "drop_duplicates")]
     if ctx.quick:
-        cases = must + cases[:200]
+        cases = must + steer[:400] + cases[:200]
     else:
-        cases = must + cases
+        cases = must + steer + cases
     return cases
+
+
+# --------------------------------------------------------------------------- T2: BroadcastJoin._layer
+
+
+def _join_frames(nl, nr):
+    import dask_expr as dx
+
+    Lp = pd.DataFrame({"kl": np.arange(12, dtype="int64") % 5, "v": np.arange(12, dtype="int64")})
+    Rp = pd.DataFrame({"kr": np.arange(12, dtype="int64") % 3, "r": np.arange(12, dtype="int64")})
+    return dx.from_pandas(Lp, npartitions=nl, sort=False), dx.from_pandas(Rp, npartitions=nr, sort=False)
+
+
+def _bj_special():
+    import operator
+
+    from dask.dataframe.multi import _concat_wrapper, _merge_chunk_wrapper
+    from dask.utils import apply
+
+    from dask_expr._merge import _split_partition_like_shuffle
+
+    def r_split(t, names):
+        _, key, on, n = t
+        on = {"kl": "left_on", "kr": "right_on"}.get(on, repr(on))
+        return f"split_like_shuffle({rkey(key, names)},on={on},n={n})"
+
+    def r_arg(a, names):
+        if isinstance(a, tuple) and a and a[0] is operator.getitem:
+            return f"getitem({rkey(a[1], names)},{a[2]})"
+        return rkey(a, names)
+
+    def r_apply(t, names):
+        _, fn, args, kw = t
+        if fn is not _merge_chunk_wrapper or len(args) != 2:
+            return "apply:?"
+        return f"merge_chunk({r_arg(args[0], names)},{r_arg(args[1], names)},how={kw['how']})"
+
+    def r_concat(t, names):
+        return f"concat([{','.join(rkey(k, names) for k in t[1])}])"
+
+    return {_split_partition_like_shuffle: r_split, apply: r_apply, _concat_wrapper: r_concat}
+
+
+def fam_broadcast_layer(ctx):
+    """T2: exact equality of the dict returned by BroadcastJoin._layer() with the model's listing."""
+    from dask_expr._merge import BroadcastJoin
+
+    f = Family("graph_equality[BroadcastJoin._layer]")
+    nmax = 4 if ctx.quick else 6
+    reqs, code, inputs, nontriv = [], [], [], []
+    special = _bj_special()
+    for how in ("inner", "left", "right", "leftsemi"):
+        for side in ("left", "right"):
+            for nl in range(1, nmax + 1):
+                for nr in range(1, nmax + 1):
+                    nother = nr if side == "left" else nl
+                    bsize = nl if side == "left" else nr
+                    subsets = [None]
+                    if nother >= 2:
+                        subsets += [[nother - 1, 0], [1]]
+                    if nother >= 3 and not ctx.quick:
+                        subsets += [[2, 0, 1], [0, 2]]
+                    for parts in subsets:
+                        L, R = _join_frames(nl, nr)
+                        e = BroadcastJoin(L.expr, R.expr, how, "kl", "kr", False, False, ("_x", "_y"), False, parts, side)
+                        try:
+                            text = "G " + rgraph(e._layer(), Names(e._name, [L.expr._name, R.expr._name]), special)
+                        except Exception as ex:  # noqa: BLE001
+                            text = f"ERR {type(ex).__name__}"
+                        eff = parts if parts is not None else list(range(nother))
+                        reqs.append(f"knob layer how={how} side={side} parts={','.join(map(str, eff)) or '-'} bsize={bsize}")
+                        code.append(text)
+                        inputs.append({"how": how, "side": side, "nl": nl, "nr": nr, "parts": parts})
+                        nontriv.append(how != "inner" or parts is not None or bsize > 1)
+    model = drive(reqs)
+    f.compare(inputs, code, model, nontriv)
+    for d in f.disagreements:
+        if d:
+            d["diff"] = first_diff(d["code"], d["model"])
+    f.exhaustive = True
+    f.note = f"how in inner/left/right/leftsemi x broadcast side x nl,nr<= {nmax} x partition selections"
+    return f
+
+
+# --------------------------------------------------------------------------- T1/T2: the plan Merge._lower picks
+
+_HOWS = ("inner", "left", "right", "outer", "leftsemi")
+_PAIRS = [(1, 1), (1, 3), (3, 1), (1, 9), (9, 1), (2, 2), (3, 3), (2, 5), (5, 2), (2, 9), (9, 2), (4, 12), (12, 4), (3, 12), (12, 3), (7, 8)]
+_BCASTS = [None, True, False, 0.1, 0.5, 1.0, 2.5, 6.0]
+_HINTS = [None, 1, 2, 6, 20]
+_METHODS = ["tasks", "disk", None, "p2p"]
+
+
+def real_plan(how, nl, nr, bc, hint, method):
+    """The physical join plan read off `Merge._lower()` of the real expression."""
+    import dask_expr as dx
+    from dask_expr._merge import BlockwiseMerge, BroadcastJoin, HashJoinP2P
+    from dask_expr._repartition import Repartition
+    from dask_expr._shuffle import RearrangeByColumn
+
+    n = 12
+    Lp = pd.DataFrame({"k": np.arange(n, dtype="int64") % 5, "v": np.arange(n, dtype="int64")})
+    Rp = pd.DataFrame({"k": np.arange(n, dtype="int64") % 3, "r": np.arange(n, dtype="int64")})
+    L = dx.from_pandas(Lp, npartitions=nl, sort=False)
+    R = dx.from_pandas(Rp, npartitions=nr, sort=False)
+    assert L.npartitions == nl and R.npartitions == nr
+    kw = {}
+    if method is not None:
+        kw["shuffle_method"] = method
+    m = L.merge(R, on="k", how=how, broadcast=bc, npartitions=hint, **kw).expr
+    lo = m._lower()
+    left0, right0 = m.left._name, m.right._name  # (leftsemi: merge() projects/renames the right frame first)
+
+    def strip(e):
+        """(is it one of the original frames possibly behind a Repartition, npartitions)"""
+        while isinstance(e, Repartition):
+            e = e.frame
+        return e._name in (left0, right0)
+
+    if isinstance(lo, BroadcastJoin):
+        side = lo.broadcast_side
+        other, bcast = (lo.left, lo.right) if side == "right" else (lo.right, lo.left)
+        shuffled = isinstance(bcast, RearrangeByColumn)
+        if shuffled and bcast.npartitions_out != bcast.frame.npartitions:
+            return "broadcast with a broadcast side shuffled to another partition count"
+        if isinstance(other, RearrangeByColumn) or not strip(other):
+            return "broadcast with a shuffled other side"
+        if lo.how != how:
+            return f"broadcast with how={lo.how}"
+        # the requested partition count of the other side (a Repartition to the hint; 12 rows cannot always be cut into 20 pieces)
+        nother = other.operand("new_partitions") if isinstance(other, Repartition) else other.npartitions
+        return f"broadcast side={side} nother={nother} bsize={bcast.npartitions} shuffled={int(shuffled)}"
+    if isinstance(lo, HashJoinP2P):
+        return f"hash n={lo.npartitions} p2p=1"
+    if isinstance(lo, BlockwiseMerge):
+        l, r = lo.left, lo.right
+        if l._name == left0 and r._name == right0:
+            return "single"
+        if isinstance(l, RearrangeByColumn) and isinstance(r, RearrangeByColumn) and l.npartitions_out == r.npartitions_out:
+            return f"hash n={l.npartitions_out} p2p=0"
+        return f"blockwise of {type(l).__name__}/{type(r).__name__}"
+    return type(lo).__name__
+
+
+def fam_merge_lower(ctx):
+    """T1/T2: the plan chosen by the real Merge._lower (read off the lowered expression) equals the model's
+    decision for the same knobs, and that plan is legal for `how` (Lean `planLegal`, proven for the model by
+    C10_join_lower_legal).  The float threshold test is evaluated by the harness and handed to the model."""
+    import math
+
+    from dask.utils import get_default_shuffle_method
+
+    f = Family("plan_choice[Merge._lower: how x partitions x broadcast x npartitions hint x method]")
+    grid = [(h, p, b, hint, m) for h in _HOWS for p in _PAIRS for b in _BCASTS for hint in _HINTS for m in _METHODS]
+    if ctx.quick:
+        must = [g for g in grid if g[0] == "leftsemi" and g[1] in ((1, 9), (2, 5), (3, 12)) and g[2] in (None, True) and g[4] == "tasks"]
+        must += [g for g in grid if g[0] in ("left", "right") and g[2] is True and g[3] in (None, 2) and g[4] == "tasks" and g[1] in ((2, 5), (5, 2), (12, 3), (3, 12))]
+        rest = [g for g in grid if g not in set(must)]
+        ctx.rng.shuffle(rest)
+        grid = must + rest[:1100]
+    default = get_default_shuffle_method()
+    reqs, code, inputs, nontriv = [], [], [], []
+    for how, (nl, nr), bc, hint, method in grid:
+        try:
+            plan = real_plan(how, nl, nr, bc, hint, method)
+        except Exception as ex:  # noqa: BLE001
+            plan = f"ERR {type(ex).__name__}: {str(ex)[:80]}"
+        bias = bc if isinstance(bc, float) else 0.5
+        n_low, n_high = min(nl, nr), max(nl, nr)
+        thr = n_low < math.log2(n_high) * bias
+        bcs = "bias" if isinstance(bc, float) else {None: "none", True: "yes", False: "no"}[bc]
+        meth = method or default
+        reqs.append(f"knob mergelower how={how} nl={nl} nr={nr} bcast={bcs} method={meth} hint={hint if hint is not None else '-'} thr={int(thr)}")
+        code.append(plan + " legal=1")
+        inputs.append({"how": how, "nl": nl, "nr": nr, "broadcast": bc, "npartitions": hint, "shuffle_method": method, "thr": thr})
+        nontriv.append(not plan.startswith("single"))
+    model = drive(reqs)
+    f.compare(inputs, code, model, nontriv)
+    f.exhaustive = not ctx.quick
+    f.note = (f"{len(_HOWS)} how x {len(_PAIRS)} partition pairs (both sides of n_low < log2(n_high)*bias) x {len(_BCASTS)} broadcast values x "
+              f"{len(_HINTS)} hints x {len(_METHODS)} methods; default method here = {default}; plans seen: "
+              + ",".join(sorted({c.split()[0] + ("-" + c.split()[1] if c.startswith("broadcast") else "") for c in code})))
+    return f
+
+
+# --------------------------------------------------------------------------- T3: both sides of a BroadcastJoin use one bucket function
+
+
+def fam_bucket_function(ctx):
+    """T3: hypothesis of C10_join_broadcast_spec for how != inner — the hash-shuffled broadcast side
+    (`RearrangeByColumn(npartitions_out=m)`) and `_split_partition_like_shuffle(other, on, m)` put a key into
+    the same bucket number (< m), i.e. both are `h(key) % m` for ONE function h; checked by the driver."""
+    import dask_expr as dx
+    from dask_expr._merge import _split_partition_like_shuffle
+    from dask_expr._shuffle import RearrangeByColumn
+
+    f = Family("bucket_function_hypothesis[RearrangeByColumn vs _split_partition_like_shuffle]")
+    rng = ctx.rng
+    reqs, inputs = [], []
+    dtypes = ["int64", "float64", "int32", "cat", "str"]
+    for it in range(40 if ctx.quick else 400):
+        m = rng.randint(1, 5)
+        nb = rng.randint(4, 14)
+        no = rng.randint(1, 12)
+        dt_b = rng.choice(dtypes)
+        dt_o = dt_b if dt_b in ("cat", "str") or rng.random() < 0.5 else rng.choice(["int64", "float64", "int32"])
+        kb = [rng.randint(0, 7) for _ in range(nb)]
+        ko = [rng.randint(0, 9) for _ in range(no)]
+
+        def col(vals, dt):
+            if dt == "cat":
+                return pd.Categorical(vals, categories=list(range(10)))
+            if dt == "str":
+                return pd.array(["s%d" % v for v in vals], dtype="object")
+            return np.array(vals, dtype=dt)
+
+        B = pd.DataFrame({"kb": col(kb, dt_b), "x": np.arange(nb)})
+        O = pd.DataFrame({"ko": col(ko, dt_o), "y": np.arange(no)})
+        bexpr = dx.from_pandas(B, npartitions=m, sort=False).expr
+        if bexpr.npartitions != m:
+            continue
+        parts = e2e.compute_partitions(dx.new_collection(RearrangeByColumn(bexpr, "kb", npartitions_out=m)), optimize=True)
+        if len(parts) != m:
+            continue
+        pieces = _split_partition_like_shuffle(O, "ko", m)
+        keys, buckets = [], []
+
+        def code_of(v):
+            return int(str(v)[1:]) if isinstance(v, str) else int(v)
+
+        for j, pj in enumerate(parts):
+            for v in pj["kb"].tolist():
+                keys.append(code_of(v)); buckets.append(j)
+        for j in range(m):
+            for v in pieces[j]["ko"].tolist():
+                keys.append(code_of(v)); buckets.append(j)
+        if len(keys) != nb + no:
+            reqs.append("knob bucketfn m=0 keys=0 buckets=0")  # rows lost: reported as FAIL
+        else:
+            reqs.append(f"knob bucketfn m={m} keys={','.join(map(str, keys))} buckets={','.join(map(str, buckets))}")
+        inputs.append({"m": m, "dtype_bcast": dt_b, "dtype_other": dt_o, "keys_bcast": kb, "keys_other": ko})
+    model = drive(reqs)
+    f.compare(inputs, ["OK"] * len(reqs), model, [i["m"] > 1 for i in inputs])
+    f.note = "key dtypes int64/int32/float64 (mixed across the sides), categorical-of-int, object strings; m in 1..5"
+    return f
+
+
+# --------------------------------------------------------------------------- T4: set_partitions_pre
+
+
+def fam_set_partitions_pre(ctx):
+    """T4: dask's set_partitions_pre (searchsorted side=right, the two clamps) agrees with the Lean model."""
+    from dask.dataframe.shuffle import set_partitions_pre
+
+    f = Family("helper_spec[set_partitions_pre]")
+    reqs, code, inputs = [], [], []
+    vals = list(range(0, 5))
+    divs = [list(c) for n in (2, 3, 4) for c in itertools.combinations_with_replacement(vals, n)]
+    rng = ctx.rng
+    for _ in range(60 if ctx.quick else 600):
+        n = rng.randint(2, 8)
+        divs.append(sorted(rng.randint(-20, 20) for _ in range(n)))
+    keys_small = list(range(-1, 6))
+    for d in divs:
+        small = max(d) <= 4 and min(d) >= 0
+        keys = keys_small if small else [rng.randint(-25, 25) for _ in range(10)]
+        for asc in (True, False):
+            got = set_partitions_pre(pd.Series(np.array(keys, dtype="int64")), pd.Series(np.array(d, dtype="int64")), ascending=asc)
+            code.append(",".join(str(int(x)) for x in got))
+            reqs.append(f"knob setpartitionspre d={','.join(map(str, d))} asc={int(asc)} keys={','.join(map(str, keys))}")
+            inputs.append({"divisions": d, "ascending": asc, "keys": keys})
+    model = drive(reqs)
+    f.compare(inputs, code, model)
+    f.exhaustive = True
+    f.note = "all sorted divisions over {0..4} of length 2..4 (duplicates included) x keys -1..5 (below the first / above the last division) x ascending/descending; random wider vectors"
+    return f
+
+
+# --------------------------------------------------------------------------- T3 + T2: the sort pipeline on real queries
+
+
+def _sort_runs(ctx):
+    """Real sort_values / set_index queries: (inputs, divisions handed to set_partitions_pre, keys per output partition)."""
+    cached = getattr(ctx, "_c10_sort_runs", None)
+    if cached is not None:
+        return cached
+    import dask_expr as dx
+    from dask_expr._shuffle import _SetPartitionsPreSetIndex
+
+    rng = random_for(ctx)
+    runs = []
+    n_cases = 36 if ctx.quick else 400
+    for it in range(n_cases):
+        n = rng.randint(6, 40)
+        hi = rng.choice([4, 12, 1000])
+        keys = [rng.randint(-3, hi) for _ in range(n)]
+        pdf = pd.DataFrame({"a": np.array(keys, dtype="int64"), "b": np.arange(n, dtype="int64")})
+        nin = rng.randint(2, 7)
+        op = rng.choice(["sort_values", "sort_values", "set_index"])
+        asc = True if op == "set_index" else rng.random() < 0.6
+        npart = rng.choice([None, None, 2, 3, 5, 9])
+        up = rng.choice([None, 1.0, 2.0, 5.0])
+        method = rng.choice(["tasks", "disk"])
+        df = dx.from_pandas(pdf, npartitions=nin, sort=False)
+        kw = {"shuffle_method": method}
+        if npart:
+            kw["npartitions"] = npart
+        if up:
+            kw["upsample"] = up
+        case = {"op": op, "keys": keys, "nin": nin, "ascending": asc, "npartitions": npart, "upsample": up, "shuffle_method": method}
+        try:
+            q = df.sort_values("a", ascending=asc, **kw) if op == "sort_values" else df.set_index("a", **kw)
+            lowered = q.expr.lower_completely()
+            pres = list(lowered.find_operations(_SetPartitionsPreSetIndex))
+            if not pres:
+                runs.append((case, None, None))  # single partition or presorted fast path: no division assignment
+                continue
+            d = [int(x) for x in pres[0].operand("new_divisions").tolist()]
+            parts = e2e.compute_partitions(q, optimize=False)
+            got = [(p.index if op == "set_index" else p["a"]).tolist() for p in parts]
+            runs.append((case, d, got))
+        except Exception as ex:  # noqa: BLE001
+            runs.append((case, "ERR", f"{type(ex).__name__}: {str(ex)[:120]}"))
+    ctx._c10_sort_runs = runs
+    return runs
+
+
+def random_for(ctx):
+    import random
+
+    return random.Random(ctx.seed * 7919 + 10)
+
+
+def fam_sort_divisions(ctx):
+    """T3: the divisions vector the real planner hands to set_partitions_pre satisfies the hypothesis of
+    C10_sort_sorted / C10_sort_npartitions (`divsOK`: ascending, >= 2 entries, first entry <= every key)."""
+    f = Family("sort_divisions_hypothesis[_calculate_divisions -> _SetPartitionsPreSetIndex.new_divisions]")
+    reqs, inputs, nontriv = [], [], []
+    for case, d, got in _sort_runs(ctx):
+        if d is None:
+            continue
+        if d == "ERR":
+            reqs.append("knob sortdivs d=- keys=0")
+        else:
+            reqs.append(f"knob sortdivs d={','.join(map(str, d))} keys={','.join(map(str, case['keys']))}")
+        inputs.append(dict(case, divisions=d))
+        nontriv.append(d != "ERR" and len(d) > 2)
+    model = drive(reqs)
+    f.compare(inputs, ["OK"] * len(reqs), model, nontriv)
+    f.note = "sort_values (asc/desc) and set_index, npartitions in None/2/3/5/9, upsample None/1/2/5, 2..7 input partitions, dense and sparse integer keys"
+    return f
+
+
+def fam_sort_pipeline(ctx):
+    """T2 at pipeline level: with the divisions read off the lowered plan, the keys found in every output
+    partition of the real computation equal `sortPlan` of the model (assignment by set_partitions_pre,
+    shuffle, per-partition sort)."""
+    f = Family("pipeline_layout[SortValues/SetPartition: set_partitions_pre + Shuffle + per-partition sort]")
+    reqs, code, inputs, nontriv = [], [], [], []
+    for case, d, got in _sort_runs(ctx):
+        if d is None:
+            continue
+        if d == "ERR":
+            reqs.append("knob sortplan d=0,1 asc=1 keys=0")
+            code.append("ERR " + str(got))
+        else:
+            reqs.append(f"knob sortplan d={','.join(map(str, d))} asc={int(case['ascending'])} keys={','.join(map(str, case['keys']))}")
+            code.append("|".join(",".join(map(str, p)) or "-" for p in got))
+        inputs.append(dict(case, divisions=d))
+        nontriv.append(d != "ERR" and len(d) > 2)
+    model = drive(reqs)
+    f.compare(inputs, code, model, nontriv)
+    f.note = "same runs as sort_divisions_hypothesis; compares the partition layout, not only the concatenation"
+    return f
+
+
+# --------------------------------------------------------------------------- T2: the presorted flag
+
+
+def fam_presorted_flag(ctx):
+    """T2: the `presorted` flag of the real _calculate_divisions (per-partition minima / maxima of real frames,
+    ascending and descending) equals the model's `presorted`, the guard of C10_sort_presorted."""
+    import dask_expr as dx
+    from dask_expr._shuffle import _calculate_divisions
+
+    f = Family("presorted_flag[_calculate_divisions]")
+    vals = [0, 1, 2, 3]
+    ranges = [(lo, hi) for lo in vals for hi in vals if lo <= hi]
+    layouts = [list(c) for c in itertools.product(ranges, repeat=2)] + [list(c) for c in itertools.product(ranges, repeat=3)]
+    if ctx.quick:
+        must = [l for l in layouts if l in ([(2, 3), (1, 2), (0, 1)], [(2, 3), (0, 1)], [(0, 1), (2, 3)], [(0, 1), (1, 2)], [(2, 3), (1, 3), (0, 2)])]
+        rest = [l for l in layouts if l not in must]
+        ctx.rng.shuffle(rest)
+        layouts = must + rest[:70]
+    reqs, code, inputs, nontriv = [], [], [], []
+    for lay in layouts:
+        parts = [pd.DataFrame({"a": np.array(sorted({lo, hi, (lo + hi) // 2}), dtype="int64")}) for lo, hi in lay]
+        df = dx.from_map(e2e._PartGetter(parts), list(range(len(parts))), meta=parts[0].iloc[:0])
+        for asc in (True, False):
+            try:
+                got = str(int(bool(_calculate_divisions(df.expr, df.expr["a"], len(parts), asc)[3])))
+            except Exception as ex:  # noqa: BLE001
+                got = f"ERR {type(ex).__name__}"
+            reqs.append(f"knob presorted asc={int(asc)} mins={','.join(str(lo) for lo, _ in lay)} maxes={','.join(str(hi) for _, hi in lay)}")
+            code.append(got)
+            inputs.append({"ranges": lay, "ascending": asc})
+            nontriv.append(True)
+    model = drive(reqs)
+    f.compare(inputs, code, model, nontriv)
+    f.exhaustive = not ctx.quick
+    f.note = "2 and 3 partitions, every [min,max] range over {0..3} per partition (nested, overlapping, touching, staggered), both directions"
+    return f
+
+
+# --------------------------------------------------------------------------- T2: shuffle_npartitions of ShuffleReduce
+
+
+def fam_shuffle_npartitions(ctx):
+    """T2: number of partitions `ShuffleReduce._lower` shuffles into (= model `shuffleNpartitions`), and
+    tree-vs-shuffle choice (`should_shuffle`): split_out == 1 lowers to TreeReduce."""
+    import dask_expr as dx
+    from dask_expr._reductions import ShuffleReduce, TreeReduce
+    from dask_expr._shuffle import RearrangeByColumn
+
+    f = Family("shuffle_npartitions[ApplyConcatApply._lower / ShuffleReduce._lower]")
+    reqs, code, inputs, nontriv = [], [], [], []
+    pdf = pd.DataFrame({"k": np.arange(48, dtype="int64") % 7, "v": np.arange(48, dtype="int64")})
+    nins = [1, 2, 3, 5, 8, 9, 16, 17] if ctx.quick else list(range(1, 25))
+    for nin in nins:
+        df = dx.from_pandas(pdf, npartitions=nin, sort=False)
+        for se in (None, False, 2, 3, 8):
+            for so in (1, 2, 3, 5, True):
+                for q in ("unique", "drop_duplicates", "value_counts", "groupby"):
+                    kw = _kw(split_every=se, split_out=so)
+                    try:
+                        if q == "unique":
+                            e = df.k.unique(**kw).expr
+                        elif q == "drop_duplicates":
+                            e = df.drop_duplicates(**kw).expr
+                        elif q == "value_counts":
+                            e = df.k.value_counts(**kw).expr
+                        else:
+                            e = df.groupby("k").v.sum(**kw).expr
+                        lo = e
+                        for _ in range(6):
+                            if isinstance(lo, (ShuffleReduce, TreeReduce)):
+                                break
+                            nxt = lo._lower()
+                            if nxt is None:
+                                break
+                            lo = nxt
+                        params = None
+                        if isinstance(lo, TreeReduce):
+                            got = "tree"
+                        elif isinstance(lo, ShuffleReduce):
+                            inner = lo._lower()
+                            rs = list(inner.find_operations(RearrangeByColumn))
+                            got = f"shuffle n={rs[0].npartitions_out}" if rs else "shuffle without RearrangeByColumn"
+                            # the operands ShuffleReduce._lower works with (the groupby API turns split_every=None into 8 first)
+                            se_op = lo.operand("split_every")
+                            params = (lo.frame.npartitions, int(se_op) if se_op else 0, lo.split_out)
+                        else:
+                            got = type(lo).__name__
+                    except Exception as ex:  # noqa: BLE001
+                        got = f"ERR {type(ex).__name__}"
+                        params = None
+                    so_n = df.npartitions if so is True else so
+                    nin_m, se_m, so_m = params if params else (df.npartitions, se or 0, so_n)
+                    reqs.append(f"knob shufflenparts nin={nin_m} se={se_m} so={so_m}")
+                    code.append(got)
+                    inputs.append({"query": q, "nin": nin, "split_every": se, "split_out": so})
+                    nontriv.append(got != "tree")
+    model = drive(reqs)
+    # the model answers the partition count; the tree/shuffle decision is `split_out == 1` (not a bool)
+    expect = []
+    for inp, mo in zip(inputs, model):
+        so = inp["split_out"]
+        expect.append("tree" if (so == 1 and so is not True) else f"shuffle n={mo}")
+    f.compare(inputs, code, expect, nontriv)
+    f.exhaustive = True
+    f.note = "unique/drop_duplicates/value_counts/groupby-sum x npartitions x split_every in None/False/2/3/8 x split_out in 1/2/3/5/True"
+    return f
 
 
 def families(ctx):
@@ -219,6 +764,8 @@ def families(ctx):
                 fams.append(fn)
     except Exception:  # noqa: BLE001
         pass
+    fams += [fam_broadcast_layer, fam_merge_lower, fam_bucket_function, fam_set_partitions_pre,
+             fam_sort_divisions, fam_sort_pipeline, fam_presorted_flag, fam_shuffle_npartitions]
     return fams
 
 
